@@ -173,8 +173,14 @@ where
 {
     let Some(len) = T::Native::from_usize(len) else {
         if T::DATA_TYPE.is_integer() {
-            // the biggest representable value for T::Native is lower than len, e.g: u8::MAX < 512, no need to check bounds
-            return Ok(());
+            // the biggest representable value for T::Native is lower than len, e.g: u8::MAX < 512,
+            // so every non-negative index is in bounds; negative indices never are
+            return match indices.iter().flatten().find(|i| *i < T::Native::ZERO) {
+                Some(index) => Err(ArrowError::ComputeError(format!(
+                    "Array index out of bounds, cannot get item at index {index} from {len} entries"
+                ))),
+                None => Ok(()),
+            };
         } else {
             return Err(ArrowError::ComputeError("Cast to usize failed".to_string()));
         }
@@ -182,7 +188,7 @@ where
 
     if indices.null_count() > 0 {
         indices.iter().flatten().try_for_each(|index| {
-            if index >= len {
+            if index < T::Native::ZERO || index >= len {
                 return Err(ArrowError::ComputeError(format!(
                     "Array index out of bounds, cannot get item at index {index} from {len} entries"
                 )));
@@ -3088,6 +3094,35 @@ mod tests {
             vec![
                 "bob", "bob", "bob", "bob", "bob", "alice", "alice", "alice", "eve", "eve", "eve"
             ]
+        );
+    }
+
+    #[test]
+    fn test_take_check_bounds_negative_index() {
+        let options = Some(TakeOptions { check_bounds: true });
+        let values = Int32Array::from((0..300).collect::<Vec<i32>>());
+
+        // negative index next to a null index
+        let indices = Int16Array::from(vec![Some(-1), None]);
+        let err = take(&values, &indices, options.clone()).unwrap_err();
+        assert!(err.to_string().contains("index out of bounds"), "{err}");
+        let err = take(&NullArray::new(3), &indices, options.clone()).unwrap_err();
+        assert!(err.to_string().contains("index out of bounds"), "{err}");
+
+        // index type that cannot represent the length of the values
+        let indices = Int8Array::from(vec![Some(-1), None]);
+        let err = take(&values, &indices, options.clone()).unwrap_err();
+        assert!(err.to_string().contains("index out of bounds"), "{err}");
+        let indices = Int8Array::from(vec![-1]);
+        let err = take(&values, &indices, options.clone()).unwrap_err();
+        assert!(err.to_string().contains("index out of bounds"), "{err}");
+
+        // in-bounds indices are still accepted
+        let indices = Int8Array::from(vec![Some(127), None, Some(0)]);
+        let taken = take(&values, &indices, options).unwrap();
+        assert_eq!(
+            taken.as_primitive::<Int32Type>(),
+            &Int32Array::from(vec![Some(127), None, Some(0)])
         );
     }
 }
